@@ -293,3 +293,31 @@ func VerifC13_LongNames() {
 	verifSameNames(w.names, files)
 	vCover("archive-validated")
 }
+
+// VerifC13_WideNested: a nested directory with a large fan-out (around 127/128/129 and
+// 255/256/257 children: sizes at which an encoder that works in batches changes behaviour)
+// followed by a sibling, so that the parent's goodbye items and tail offset depend on the
+// nested directory's full extent.
+func VerifC13_WideNested() {
+	fans := []int{0, 1, 127, 128, 129, 257}
+	if vTier() > 0 {
+		fans = []int{0, 1, 2, 63, 64, 65, 127, 128, 129, 255, 256, 257, 300, 513}
+	}
+	fan := fans[vChoose("nested-fan-out", len(fans))]
+	mt := time.Unix(0, vI64("mtime"))
+	files := []*File{{Name: ".", Path: ".", Mode: os.ModeDir | 0755, ModTime: mt}}
+	files = append(files, &File{Name: "d", Path: "d", Mode: os.ModeDir | 0750, Uid: vInt("uid"), ModTime: mt})
+	for k := 0; k < fan; k++ {
+		name := "f" + string([]byte{'0' + byte(k/100), '0' + byte(k/10%10), '0' + byte(k%10)})
+		files = append(files, &File{Name: name, Path: "d/" + name, Mode: os.ModeSymlink | 0777, ModTime: mt, LinkTarget: "t"})
+	}
+	files = append(files, &File{Name: "z", Path: "z", Mode: 0644, Size: 1, ModTime: mt, Data: io.NopCloser(bytes.NewReader(vBytes("content", 1)))})
+	var buf bytes.Buffer
+	err := Tar(context.Background(), &buf, &verifTreeReader{files: files})
+	vAssert(err == nil, "Tar failed")
+	w := &verifArchWalker{b: buf.Bytes()}
+	w.node(0)
+	vAssert(w.pos == len(w.b), "bytes left over after the root directory's goodbye table")
+	verifSameNames(w.names, files)
+	vCover("archive-validated")
+}
